@@ -577,3 +577,83 @@ func (rt *Router) Await(backend, player string, d time.Duration) (*SBackendConn,
 		return nil, fmt.Errorf("rig: %s never connected to backend %s", player, backend)
 	}
 }
+
+// ---------------------------------------------------------------- rendezvous
+
+// Rendezvous holds goroutines of the real proxy at verifhook points until a given
+// number of them has arrived there with the same key (point name + "id" value), or a
+// timeout passed; then the group stays open.  It turns "several handlers at once" into
+// "several handlers inside the same window at once".  It only delays.
+type Rendezvous struct {
+	mu      sync.Mutex
+	groups  map[string]*rvGroup
+	Timeout time.Duration
+	Met     int // groups that filled up
+	Timed   int // groups released by the timeout
+}
+
+type rvGroup struct {
+	need, n int
+	open    chan struct{}
+	done    bool
+}
+
+// NewRendezvous creates a rendezvous receiver.
+func NewRendezvous(timeout time.Duration) *Rendezvous {
+	return &Rendezvous{groups: map[string]*rvGroup{}, Timeout: timeout}
+}
+
+// Install / Uninstall make it the process-wide hook receiver.
+func (r *Rendezvous) Install()   { verifexport.InstallHook(r.hook) }
+func (r *Rendezvous) Uninstall() { verifexport.InstallHook(nil) }
+
+// Expect arms the point for the id: the first `need` arrivals wait for each other.
+func (r *Rendezvous) Expect(point string, id int64, need int) {
+	r.mu.Lock()
+	r.groups[fmt.Sprintf("%s/%d", point, id)] = &rvGroup{need: need, open: make(chan struct{})}
+	r.mu.Unlock()
+}
+
+func (r *Rendezvous) hook(gate bool, name string, kv []any) {
+	if !gate {
+		return
+	}
+	var id int64 = -1
+	for i := 0; i+1 < len(kv); i += 2 {
+		if kv[i] == "id" {
+			switch v := kv[i+1].(type) {
+			case int64:
+				id = v
+			case int:
+				id = int64(v)
+			}
+		}
+	}
+	r.mu.Lock()
+	g := r.groups[fmt.Sprintf("%s/%d", name, id)]
+	if g == nil || g.done {
+		r.mu.Unlock()
+		return
+	}
+	g.n++
+	if g.n >= g.need {
+		g.done = true
+		r.Met++
+		close(g.open)
+		r.mu.Unlock()
+		return
+	}
+	open := g.open
+	r.mu.Unlock()
+	select {
+	case <-open:
+	case <-time.After(r.Timeout):
+		r.mu.Lock()
+		if !g.done {
+			g.done = true
+			r.Timed++
+			close(g.open)
+		}
+		r.mu.Unlock()
+	}
+}
